@@ -623,6 +623,58 @@ theorem reload_pending_replay :
     let st := run (St.init (.sqlite [])) pendingOps
     st.dirty = [] ∧ st.silent = [] ∧ st.changeset = [] ∧ (reload st.store).changeset = [] := by decide
 
+/-! ### event intake -/
+
+theorem commit_ok_clears_dirty (a : St) (h : (step a .commit).1 = .ok ()) : (step a .commit).2.dirty = [] := by
+  have he : step a .commit = storageCommit a := rfl
+  rw [he] at h ⊢
+  rw [storageCommit_eq] at h ⊢
+  rcases hm : forEach a.dirty storageUpdate a with ⟨r | r, s'⟩
+  · simp only [hm] at h; cases h
+  · rfl
+
+/-- **Every event-intake step ends with an empty dirty set**: whatever mixture of walk events
+    (`from_walk = True`: start-up walk or `CloudSync.walk()`) and provider events is delivered, if the
+    step returns normally and the dirty set was empty before it, nothing is left waiting — each event is
+    committed on its own, walk events included. -/
+theorem intake_step_commits (evs : List IntakeEvent) : ∀ (st : St), st.dirty = [] →
+    (intakeStep st evs).1 = .ok () → (intakeStep st evs).2.dirty = [] := by
+  induction evs with
+  | nil => intro st hd _; exact hd
+  | cons ev rest ih =>
+    intro st hd hok
+    simp only [intakeStep] at hok ⊢
+    rcases hp : processEvent st ev with ⟨r | r, st'⟩
+    · simp only [hp] at hok; cases hok
+    · simp only [hp] at hok ⊢
+      have hc : (step (run st ev.writes) .commit).1 = .ok () := by
+        have : processEvent st ev = step (run st ev.writes) .commit := rfl
+        rw [this] at hp; rw [hp]
+      have hd' := commit_ok_clears_dirty _ hc
+      have : processEvent st ev = step (run st ev.writes) .commit := rfl
+      rw [this] at hp
+      rw [hp] at hd'
+      exact ih st' hd' hok
+
+/-- … and, from an empty database, storage is exact after it (intake steps are runs of the operation
+    language: `commit_makes_storage_exact` applies to them) -/
+theorem intake_step_exact (ops : List Op) (evs : List IntakeEvent) :
+    let st := run (St.init (.sqlite [])) ops
+    st.dirty = [] → (intakeStep st evs).1 = .ok () → Exact (intakeStep st evs).2 := by
+  intro st hd hok
+  have hinv : ∀ (evs : List IntakeEvent) (a : St), Inv a → Inv (intakeStep a evs).2 := by
+    intro evs
+    induction evs with
+    | nil => intro a h; exact h
+    | cons ev rest ih =>
+      intro a h
+      simp only [intakeStep]
+      have h1 : Inv (processEvent a ev).2 := Inv_step _ .commit (Inv_run ev.writes a h)
+      rcases hp : processEvent a ev with ⟨r | r, a'⟩
+      · simp only [hp] at h1 ⊢; exact h1
+      · simp only [hp] at h1 ⊢; exact ih a' h1
+  exact exact_of_inv _ (hinv evs st (persistence_invariant ops)) (intake_step_commits evs st hd hok)
+
 instance : DecidableEq (Except HErr Unit) := fun a b =>
   match a, b with
   | .ok (), .ok () => isTrue rfl
